@@ -159,6 +159,43 @@ def _apply(kind: str, src: str, qual: str, rng: random.Random) -> tp.Optional[tp
         if not n:
             return None
         what = f'{n} messages'
+    elif kind == 'temp':
+        # hoist one argument of a plain call statement into a fresh local assigned just before it (`r = f(a.b, k=c[i])` -> `_h = a.b; r = f(_h, k=c[i])`);
+        # only statements whose value is one call without nested calls / conditionals / comprehensions: nothing evaluated can have a side effect or be skipped
+        cands = []
+        for holder in ast.walk(fn):
+            if isinstance(holder, (ast.Lambda, ast.ListComp, ast.SetComp, ast.DictComp, ast.GeneratorExp)):
+                continue
+            for field in ('body', 'orelse', 'finalbody'):
+                stmts = getattr(holder, field, None)
+                if not isinstance(stmts, list):
+                    continue
+                for idx, st in enumerate(stmts):
+                    if not (isinstance(st, (ast.Assign, ast.Expr, ast.Return)) and isinstance(getattr(st, 'value', None), ast.Call)):
+                        continue
+                    c = st.value
+                    inner = [x for x in ast.walk(c) if x is not c]
+                    if any(isinstance(x, (ast.Call, ast.IfExp, ast.BoolOp, ast.Lambda, ast.ListComp, ast.SetComp, ast.DictComp, ast.GeneratorExp, ast.Starred,
+                                          ast.Yield, ast.YieldFrom, ast.Await, ast.NamedExpr)) for x in inner) or any(k.arg is None for k in c.keywords):
+                        continue
+                    for ai, a in enumerate(c.args):
+                        if isinstance(a, (ast.Attribute, ast.Subscript, ast.BinOp, ast.Compare, ast.Tuple)):
+                            cands.append((stmts, idx, c, 'arg', ai))
+                    for ki, kw in enumerate(c.keywords):
+                        if isinstance(kw.value, (ast.Attribute, ast.Subscript, ast.BinOp, ast.Compare, ast.Tuple)):
+                            cands.append((stmts, idx, c, 'kw', ki))
+        if not cands:
+            return None
+        stmts, idx, c, where, i = rng.choice(cands)
+        name = '_hoisted'
+        if where == 'arg':
+            expr = c.args[i]
+            c.args[i] = ast.Name(id=name, ctx=ast.Load())
+        else:
+            expr = c.keywords[i].value
+            c.keywords[i].value = ast.Name(id=name, ctx=ast.Load())
+        stmts.insert(idx, ast.Assign(targets=[ast.Name(id=name, ctx=ast.Store())], value=expr))
+        what = f'hoisted {ast.unparse(expr)[:40]}'
     elif kind == 'kwsort':
         n = 0
         for c in ast.walk(fn):
@@ -223,7 +260,7 @@ def run_for_property(prop: str, repo: str, seed: int = 0, budget: int = 48, jobs
     sweep = [(prop, repo, q, 'renameall', rng.randrange(1 << 30), frozenset(base)) for q in cands[:int(os.environ.get('SFA_BENIGN_SWEEP', '96'))]]
     work = []
     for i, q in enumerate(cands):
-        for kind in ('rename', 'kwsort', 'pass', 'swapeq', 'ifnot', 'annot', 'msg'):
+        for kind in ('rename', 'kwsort', 'pass', 'swapeq', 'ifnot', 'annot', 'msg', 'temp'):
             work.append((prop, repo, q, kind, rng.randrange(1 << 30), frozenset(base)))
     rng.shuffle(work)
     work = sweep + work[:budget]
